@@ -129,6 +129,21 @@ Seeds0 == {
   Sch([enum |-> << JInt(0), JBool(FALSE), JInt(1), JFlt(1, 1) >>]),
   Sch([enum |-> << JArr(<<JInt(0)>>), JArr(<<JBool(FALSE)>>), O(<< <<"a", JInt(1)>> >>), O(<< <<"a", JBool(TRUE)>> >>) >>,
        uniqueItems |-> TRUE]),
+  (* one member name matched by several patterns: every matching pattern governs it *)
+  Sch([patternProperties |-> << <<"^a", Ty("integer")>>, <<"a", Sch([minimum |-> JInt(2)])>>, <<"b$", FalseS>> >>]),
+  (* a required name without a declaration, matched by a pattern that is not anchored at the start *)
+  Sch([type |-> "object", title |-> "T", required |-> <<"ab">>, additionalProperties |-> FalseS,
+       patternProperties |-> << <<"b$", Ty("integer")>> >>]),
+  (* a required name without a declaration, built by the additionalProperties schema *)
+  Sch([type |-> "object", title |-> "T", required |-> <<"a">>, additionalProperties |-> Ty("number")]),
+  Sch([type |-> "object", title |-> "T", required |-> <<"a">>,
+       additionalProperties |-> Sch([type |-> "object", properties |-> << <<"b", Sch([default |-> JInt(1)])>> >>])]),
+  (* allOf whose first member is a oneOf of classes, followed by a plain member *)
+  Sch([allOf |-> << Sch([oneOf |-> << Sch([type |-> "object", properties |-> << <<"a", Ty("string")>> >>, required |-> <<"a">>]),
+                                       Sch([type |-> "object", properties |-> << <<"b", Ty("integer")>> >>, required |-> <<"b">>]) >>]),
+                    Sch([minProperties |-> 1]) >>]),
+  (* a default declared by a member of an allOf, none on the allOf itself *)
+  Sch([allOf |-> << Sch([type |-> "string", default |-> JStr("a")]), Sch([minLength |-> 1]) >>]),
   (* an empty tuple whose further items are objects of a class *)
   Sch([type |-> "object", title |-> "T",
        properties |-> << <<"a", Sch([type |-> "array", itemsT |-> <<>>,
